@@ -52,13 +52,46 @@ def run(pid, tier, seed):
         v.violation(sig, {"family": "mailbox", "meta": meta, "trace": [json.loads(x) for x in viol["run"]],
                           "first_unexplained": viol.get("lenient_event_index"), "event": ev,
                           "replay_cmd": "./check %s --replay <this file>" % pid})
+    # V2: the public send API of a real actor on engine T (every send flavour, mis-typed references, drain);
+    # only the observation alphabet is judged (the actor task stands for the consumer)
+    trace2 = os.path.join(w, "batch_t.ndjson")
+    summ2 = vlib.harness(["mailbox-t", "--out", trace2, "--tier", tier, "--seed", seed])
+    vb2 = vlib.validate_batch("Trace_Mailbox", "Trace_Mailbox.cfg", trace2, "mailbox_t_" + pid, start_lenient=True)
+    for viol in vb2["violations"]:
+        meta = json.loads(viol["run"][0]).get("meta", {})
+        ev = viol.get("lenient_event") or "{}"
+        try:
+            j = json.loads(ev)
+            lab = j.get("a", "?") + ("/" + j["via"] if "via" in j else "")
+        except Exception:
+            lab = "?"
+        sig = "mailbox-t first-unexplained=%s gen=%s" % (lab, json.dumps(meta.get("gen")))
+        v.violation(sig, {"family": "mailbox-t", "meta": meta, "trace": [json.loads(x) for x in viol["run"]],
+                          "first_unexplained": viol.get("lenient_event_index"), "event": ev})
+    # V3 (thorough): the same roles on free-running OS threads -- reaches, by chance, windows inside code that has
+    # no schedule point; observations only
+    free = {"runs": 0, "lenient_accepted": 0}
+    if tier == "thorough":
+        trace3 = os.path.join(w, "batch_free.ndjson")
+        summ3 = vlib.harness(["mailbox-free", "--out", trace3, "--tier", "quick", "--seed", seed])
+        vb3 = vlib.validate_batch("Trace_Mailbox", "Trace_Mailbox.cfg", trace3, "mailbox_free_" + pid, start_lenient=True, lenient_chunk=150)
+        free = {"runs": summ3["runs"], "lenient_accepted": vb3["lenient_accepted"]}
+        for viol in vb3["violations"]:
+            meta = json.loads(viol["run"][0]).get("meta", {})
+            ev = viol.get("lenient_event") or "{}"
+            sig = "mailbox-free %s first-unexplained=%s" % (meta.get("shape"), json.loads(ev).get("a", "?"))
+            v.violation(sig, {"family": "mailbox-free", "meta": meta, "trace": [json.loads(x) for x in viol["run"]],
+                              "first_unexplained": viol.get("lenient_event_index"), "event": ev,
+                              "note": "free-running threads: not re-executable, the recorded trace is the evidence"})
     cov = {
         "states": sum(m["states"] for m in mcs),
         "transitions": sum(m["transitions"] for m in mcs),
-        "traces_validated_against_impl": vb["strict_accepted"] + vb["lenient_accepted"] + len(vb["divergences"]),
+        "traces_validated_against_impl": vb["strict_accepted"] + vb["lenient_accepted"] + len(vb["divergences"]) + vb2["lenient_accepted"],
         "samples": summ.get("samples", [])[:3],
-        "evaluations": summ["runs"],
-        "distinct_nontrivial": summ["distinct_nontrivial"],
+        "evaluations": summ["runs"] + summ2["runs"],
+        "api_level_runs": summ2["runs"],
+        "free_running_runs": free,
+        "distinct_nontrivial": summ["distinct_nontrivial"] + summ2["distinct_nontrivial"],
         "rule": "one evaluation = one schedule of sender/drainer/consumer threads on a detached cell, enumerated by DFS "
                 "with preemption bound 1 and 2 (capped) plus seeded random schedules; distinct = distinct event-sequence "
                 "hash; non-trivial = contains at least one preemption (context switch away from a runnable thread)",
@@ -67,7 +100,7 @@ def run(pid, tier, seed):
         "lenient_only_accepted_runs": vb["lenient_accepted"],
         "unvalidated_runs": vb["unvalidated"],
         "divergences": len(vb["divergences"]),
-        "rejected_runs": len(vb["violations"]),
+        "rejected_runs": len(vb["violations"]) + len(vb2["violations"]),
         "tlc_trace_states": vb["tlc_states"],
         "mc_configs": [{"cfg": m["cfg"], "states": m["states"], "transitions": m["transitions"], "wall_s": m["wall_s"],
                         "actions_covered": len([a for a, c in m["coverage"].items() if c > 0])} for m in mcs],
@@ -83,18 +116,14 @@ def replay(pid, path):
     w = vlib.workdir("replay_" + pid)
     out = os.path.join(w, "replay.ndjson")
     meta = rp["meta"]
-    shape_str = meta["shape"]
-    # find the shape index by string among both tiers
-    for tier in ("quick", "thorough"):
-        try:
-            summ = vlib.harness(["mailbox-replay", "--tier", tier, "--shape-str", shape_str, "--sched", json.dumps(meta["sched"]), "--out", out])
-        except vlib.ToolError:
-            continue
-        if summ.get("runs") == 1:
-            break
-    vb = vlib.validate_batch("Trace_Mailbox", "Trace_Mailbox.cfg", out, "replay_" + pid)
+    if rp.get("family") == "mailbox-t":
+        vlib.harness(["mailbox-t-replay", "--gen", json.dumps(meta.get("gen")), "--sched", json.dumps(meta.get("sched", [])), "--out", out])
+        vb = vlib.validate_batch("Trace_Mailbox", "Trace_Mailbox.cfg", out, "replay_" + pid, start_lenient=True)
+    else:
+        vlib.harness(["mailbox-replay", "--shape-str", meta["shape"], "--sched", json.dumps(meta["sched"]), "--out", out])
+        vb = vlib.validate_batch("Trace_Mailbox", "Trace_Mailbox.cfg", out, "replay_" + pid)
     if vb["violations"]:
         log("VIOLATION property=%s replay=%s" % (pid, path))
         return 1
-    log("replay accepted by the specification (strict=%d, divergences=%d)" % (vb["strict_accepted"], len(vb["divergences"])))
+    log("replay accepted by the specification (strict=%d, lenient=%d, divergences=%d)" % (vb["strict_accepted"], vb["lenient_accepted"], len(vb["divergences"])))
     return 0
